@@ -59,7 +59,7 @@ func run(r *core.Run) {
 			r.Violate(f.Sig, f.Msg, t.Case)
 		}
 		if st.Interesting > before.Interesting {
-			r.Nontrivial(t.Case.String())
+			r.Nontrivial(t.Case.Prog + t.Case.File + t.Case.Format)
 		}
 		if evals%4001 == 0 {
 			r.Sample(map[string]any{"tree": t.Case.String(), "values": st.Values - before.Values})
@@ -86,6 +86,8 @@ func run(r *core.Run) {
 	r.Count("tobits_compared", st.TobitsCompared)
 	r.Count("dsl_values_without_reference_node", st.Unmatched)
 	r.Count("known_c03_tls_late_fields_skipped", st.KnownTLS)
+	r.Count("struct_fields_reporting_an_index_not_judged", st.StructFieldWithIndex)
+	r.Count("scalar_roots_reporting_an_index_not_judged", st.RootWithIndex)
 }
 
 func classifyString(r *core.Run, t *c05.Tree, s string) {
